@@ -547,6 +547,12 @@ func (m *Model) newSCFail(ev Event) {
 	if m.op != nil && ev.Phase == PhCore {
 		m.op.newFail++
 	}
+	if ev.Note == "empty" && m.lastAddrs != "" {
+		// the channel core rejects an empty list; asking for a connection with no
+		// addresses while the resolver's latest list is not empty is C20's
+		// "connections added later use the most recently resolved list"
+		m.v("C20", "new-conn-stale-addrs", "empty", fmt.Sprintf("NewSubConn called with an empty address list, latest resolved list is %s", m.lastAddrs), ev.Op)
+	}
 }
 
 //go:norace
